@@ -134,4 +134,11 @@ pub fn ek(e: &object_store::Error) -> EK {
 
 pub fn install_clock(start_ms: u64) {
     anda_object_store::verif::set_clock(Some(start_ms));
+    // nonces and generation salts come from a seeded stream: a case is a pure function of its value
+    anda_object_store::verif::set_rand_seed(Some(start_ms ^ 0x5EED));
+}
+
+/// Per-case nonce stream (so that different cases see different tokens / nonces).
+pub fn install_rand<T: std::fmt::Debug>(case: &T) {
+    anda_object_store::verif::set_rand_seed(Some(vf_core::fnv64(format!("{case:?}").as_bytes())));
 }
